@@ -188,6 +188,7 @@ type Worker struct {
 	smtReads     map[string][]*Term
 	observes     []obsRec
 	hashApps     map[string][]hashApp
+	errgroupErr  map[string]IfaceV
 	domSlotCache map[*ssa.BasicBlock][]int
 	lazyNext     bool
 	LazyBranches int
